@@ -60,6 +60,9 @@ func (x *Exec) call(i *ssa.Call) Val {
 		for k, a := range com.Args {
 			vals[k] = x.get(a)
 		}
+		if v, ok := x.fmtState(i, vals); ok {
+			return v
+		}
 		x.havocArgs(com.Args, vals)
 		x.warn("interface method call %s havocked", com.Method.Name())
 		return x.freshVal("inv_"+com.Method.Name(), resT)
@@ -281,25 +284,29 @@ func (x *Exec) contractCall(i *ssa.Call, callee *ssa.Function, cc *Contract, val
 		}
 		x.oblige(fmt.Sprintf("call/%s#%d/requires/%d", key, ord, k+1), "call-requires", x.curPC, t, r.Text, pos)
 	}
-	// frame: pointer arguments are assumed modified unless the contract says "assigns nothing"
-	nothing := len(cc.Assigns) == 1 && cc.Assigns[0] == "nothing"
-	if !nothing {
-		for k, p := range callee.Params {
-			switch v := vals[k].(type) {
-			case Ptr:
-				if cur, ok := x.cur.mem[v.Cell]; ok {
-					x.store(v, x.havocLike(x.readPath(cur, v.Path), "post_"+p.Name()))
-				}
-			case *SliceV:
-				listed := false
-				for _, a := range cc.Assigns {
-					if a == p.Name() {
-						listed = true
-					}
-				}
-				if listed && v.Back != nil {
-					x.cur.mem[v.Back] = Leaf{T: x.vc.fresh("post_"+p.Name()+"_arr", sortArr)}
-				}
+	// frame: a callee writes only through the parameters listed for it in frameAllowed (that is what
+	// the frame analysis of the C20 check establishes for every function of the package, including
+	// writes made by passing the parameter on to another function); exactly those are havocked here
+	written := map[string]bool{}
+	fk := key
+	if callee.Parent() != nil {
+		fk = funcKey(callee.Parent())
+	}
+	for _, a := range frameAllowed[fk] {
+		written[a] = true
+	}
+	for k, p := range callee.Params {
+		if !written[p.Name()] {
+			continue
+		}
+		switch v := vals[k].(type) {
+		case Ptr:
+			if cur, ok := x.cur.mem[v.Cell]; ok {
+				x.store(v, x.havocLike(x.readPath(cur, v.Path), "post_"+p.Name()))
+			}
+		case *SliceV:
+			if v.Back != nil {
+				x.cur.mem[v.Back] = Leaf{T: x.vc.fresh("post_"+p.Name()+"_arr", sortArr)}
 			}
 		}
 	}
@@ -714,19 +721,21 @@ func (x *Exec) appendOp(i *ssa.Call) Val {
 		// a small constant number of appended elements (variadic append of a few bytes): the result is
 		// a store chain over a base array that agrees with dst on dst's elements (it is dst's array
 		// itself when the capacity suffices) - no quantifier is needed to read the new elements
-		// res agrees with dst on dst's elements (quantified, one instantiation per read of an old
-		// element) and carries the new elements at ground indices
+		// res agrees with dst on dst's elements (quantified over absolute indices, so that any read
+		// (select res i) triggers the instance) and carries the new elements at ground indices
 		kq := "k!app"
-		x.vc.emit(fmt.Sprintf("(assert (forall ((%s Int)) (! (=> (and (<= 0 %s) (< %s %s)) (= (select %s (+ %s %s)) (select %s (+ %s %s)))) :pattern ((select %s (+ %s %s))))))",
-			kq, kq, kq, dst.Len.S, res.S, dst.Off.S, kq, darr.S, dst.Off.S, kq, res.S, dst.Off.S, kq))
+		end := mkAdd(dst.Off, dst.Len)
+		x.vc.emit(fmt.Sprintf("(assert (forall ((%s Int)) (! (=> (and (<= %s %s) (< %s %s)) (= (select %s %s) (select %s %s))) :pattern ((select %s %s)))))",
+			kq, dst.Off.S, kq, kq, end.S, res.S, kq, darr.S, kq, res.S, kq))
 		for j := int64(0); j < src.Len.C.Int64(); j++ {
-			x.vc.emit(fmt.Sprintf("(assert (= (select %s (+ %s %s %d)) (select %s (+ %s %d))))", res.S, dst.Off.S, dst.Len.S, j, sarr.S, src.Off.S, j))
+			x.vc.emit(fmt.Sprintf("(assert (= (select %s %s) (select %s %s)))", res.S, mkAdd(end, intT64(j)).S, sarr.S, mkAdd(src.Off, intT64(j)).S))
 		}
 	} else {
-		// quantified description of contents (both cases): res[off+k] for k<len(dst) = dst[k]; k>=len(dst) -> src
+		// quantified description of contents (both cases), over absolute indices
 		kq := "k!app"
-		x.vc.emit(fmt.Sprintf("(assert (forall ((%s Int)) (! (=> (and (<= 0 %s) (< %s %s)) (= (select %s (+ %s %s)) (ite (< %s %s) (select %s (+ %s %s)) (select %s (+ %s (- %s %s)))))) :pattern ((select %s (+ %s %s))))))",
-			kq, kq, kq, newLen.S, res.S, dst.Off.S, kq, kq, dst.Len.S, darr.S, dst.Off.S, kq, sarr.S, src.Off.S, kq, dst.Len.S, res.S, dst.Off.S, kq))
+		end := mkAdd(dst.Off, dst.Len)
+		x.vc.emit(fmt.Sprintf("(assert (forall ((%s Int)) (! (=> (and (<= %s %s) (< %s %s)) (= (select %s %s) (ite (< %s %s) (select %s %s) (select %s (+ %s (- %s %s)))))) :pattern ((select %s %s)))))",
+			kq, dst.Off.S, kq, kq, mkAdd(dst.Off, newLen).S, res.S, kq, kq, end.S, darr.S, kq, sarr.S, src.Off.S, kq, end.S, res.S, kq))
 	}
 	x.cur.mem[nc] = Leaf{T: res}
 	if dst.Back != nil {
@@ -759,4 +768,39 @@ func (x *Exec) copyOp(i *ssa.Call) Val {
 		kq, res.S, kq, dst.Off.S, kq, kq, dst.Off.S, n.S, sarr.S, src.Off.S, kq, dst.Off.S, old.S, kq, res.S, kq))
 	x.cur.mem[dst.Back] = Leaf{T: res}
 	return Leaf{T: n, MT: &mt}
+}
+
+// fmtState models the methods of a fmt.State value handed to a Formatter by package fmt (trusted,
+// from the fmt documentation and print.go): Flag is a pure observer of the verb's flags, Width and
+// Precision are fixed for the call and, when present, lie in 0..1e6 (fmt rejects larger numbers and
+// turns a negative '*' width into the '-' flag), Write reads its argument only.
+func (x *Exec) fmtState(i *ssa.Call, vals []Val) (Val, bool) {
+	com := i.Call
+	nt, ok := com.Value.Type().(*types.Named)
+	if !ok || nt.Obj().Pkg() == nil || nt.Obj().Pkg().Path() != "fmt" || nt.Obj().Name() != "State" || x.th.Mode() != "int" {
+		return nil, false
+	}
+	mt := MT{64, true}
+	switch com.Method.Name() {
+	case "Flag":
+		l, ok := vals[0].(Leaf)
+		if !ok {
+			return nil, false
+		}
+		x.w.noteTrusted("fmt.State.Flag", "pure observer of the flags of the verb being formatted (package fmt documentation)")
+		return Leaf{T: T{S: fmt.Sprintf("(fmtFlag %s)", l.T.S), Sort: sortBool}}, true
+	case "Width", "Precision":
+		n := "fmtWid"
+		if com.Method.Name() == "Precision" {
+			n = "fmtPrec"
+		}
+		x.w.noteTrusted("fmt.State."+com.Method.Name(), "fixed for the call; when present between 0 and 1e6 (package fmt rejects larger numbers)")
+		v := T{S: n, Sort: sortInt}
+		x.vc.assumeAlways(mkAnd(mkCmp("<=", intT64(0), v), mkCmp("<=", v, intT64(1000000))))
+		return Agg{Elems: []Val{Leaf{T: v, MT: &mt}, Leaf{T: T{S: "fmtHas" + n[3:], Sort: sortBool}}}}, true
+	case "Write":
+		x.w.noteTrusted("fmt.State.Write", "reads its argument only (io.Writer contract)")
+		return x.freshVal("inv_Write", i.Type()), true
+	}
+	return nil, false
 }
